@@ -171,9 +171,6 @@ impl Op {
         }
     }
 
-    pub fn is_sync(&self) -> bool {
-        matches!(self, Op::SyncAll | Op::SyncData)
-    }
 }
 
 // ---------------------------------------------------------------------------------------------
@@ -206,10 +203,6 @@ impl Res {
             Ok(n) => Res::Ok(*n as u64),
             Err(_) => Res::from_io(r, 0),
         }
-    }
-
-    pub fn is_ok(&self) -> bool {
-        matches!(self, Res::Ok(_))
     }
 
     pub fn class(&self) -> String {
@@ -364,9 +357,81 @@ fn fionread(fd: RawFd) -> usize {
     n as usize
 }
 
-fn snapshot(dir: &Path, rx: Option<RawFd>, tx_open: bool, has_file: bool) -> State {
-    let mut tree = Vec::new();
-    walk(dir, "", &mut tree);
+/// How the harness reads the externally visible state of a world.
+#[derive(Clone, Copy, Debug, PartialEq, Eq)]
+pub enum SnapMode {
+    /// nothing on disk matters (pipe scenarios)
+    None,
+    /// only file "f" exists; it is read through a harness-owned descriptor (fstat + pread)
+    FileFd,
+    /// walk the whole world directory (lstat, file bytes, link texts)
+    Walk,
+}
+
+/// Harness-side part of a world: its directory and how to look at it.
+pub struct Base {
+    pub dir: PathBuf,
+    pub mode: SnapMode,
+    /// harness-owned descriptor on "f" (SnapMode::FileFd)
+    pub probe: Option<std::fs::File>,
+    dirty: bool,
+    created: bool,
+}
+
+impl Base {
+    pub fn new(dir: PathBuf) -> Self {
+        Self { dir, mode: SnapMode::None, probe: None, dirty: true, created: false }
+    }
+
+    pub fn reset(&mut self, mode: SnapMode) {
+        self.probe = None;
+        if self.dirty || mode == SnapMode::Walk || !self.created {
+            clear_dir(&self.dir);
+            self.created = true;
+        }
+        // FileFd leaves only "f" behind, which the next FileFd setup truncates; anything else
+        // requires a clean directory next time
+        self.dirty = mode == SnapMode::Walk;
+        if self.mode == SnapMode::FileFd && mode != SnapMode::FileFd {
+            let _ = std::fs::remove_file(self.dir.join("f"));
+        }
+        self.mode = mode;
+    }
+
+    /// (re)create file "f" with the given content and keep a harness descriptor on it
+    pub fn create_probe_file(&mut self, content: &[u8]) -> io::Result<()> {
+        use std::io::Write;
+        let mut f = std::fs::OpenOptions::new().read(true).write(true).create(true).truncate(true).open(self.dir.join("f"))?;
+        f.write_all(content)?;
+        self.probe = Some(f);
+        Ok(())
+    }
+
+    fn tree(&self) -> Vec<(String, char, u64, u32, u64, Vec<u8>)> {
+        let mut tree = Vec::new();
+        match self.mode {
+            SnapMode::None => {}
+            SnapMode::Walk => walk(&self.dir, "", &mut tree),
+            SnapMode::FileFd => {
+                let Some(f) = &self.probe else { return tree };
+                let m = match f.metadata() {
+                    Ok(m) => m,
+                    Err(e) => vcore::machinery_error(&format!("fstat on the probe descriptor failed: {e}")),
+                };
+                let mut buf = [0u8; 256];
+                let n = unsafe { libc::pread(f.as_raw_fd(), buf.as_mut_ptr().cast(), buf.len(), 0) };
+                if n < 0 || m.len() > 256 {
+                    vcore::machinery_error("probe read failed or file grew beyond 256 bytes");
+                }
+                tree.push(("f".to_string(), 'f', m.len(), m.mode() & 0o7777, m.nlink(), buf[..n as usize].to_vec()));
+            }
+        }
+        tree
+    }
+}
+
+fn snapshot(base: &Base, rx: Option<RawFd>, tx_open: bool, has_file: bool) -> State {
+    let tree = base.tree();
     State {
         tree,
         pipe_buffered: rx.map(fionread),
@@ -458,10 +523,9 @@ fn cmeta(m: &compio_fs::Metadata) -> MetaObs {
 // ---------------------------------------------------------------------------------------------
 
 pub trait World {
-    fn name(&self) -> &'static str;
-    fn dir(&self) -> &Path;
-    /// drop all handles, empty the directory
-    fn reset(&mut self);
+    fn base(&mut self) -> &mut Base;
+    /// drop all handles, bring the directory into the state `mode` expects
+    fn reset(&mut self, mode: SnapMode);
     /// create an anonymous pipe through the world's own API
     fn make_pipe(&mut self) -> Obs;
     fn exec(&mut self, op: &Op) -> Obs;
@@ -490,7 +554,7 @@ fn drain(rx: Option<RawFd>) -> Vec<u8> {
 // ---------------------------------------------------------------------------------------------
 
 pub struct RefWorld {
-    dir: PathBuf,
+    base: Base,
     file: Option<std::fs::File>,
     rx: Option<OwnedFd>,
     tx: Option<OwnedFd>,
@@ -519,11 +583,11 @@ fn advance_members(bufs: &mut [Vec<u8>], n: usize) {
 
 impl RefWorld {
     pub fn new(dir: PathBuf) -> Self {
-        Self { dir, file: None, rx: None, tx: None }
+        Self { base: Base::new(dir), file: None, rx: None, tx: None }
     }
 
     fn p(&self, rel: &str) -> PathBuf {
-        self.dir.join(rel)
+        self.base.dir.join(rel)
     }
 
     fn read_into(fd: RawFd, shape: Shape, off: Option<u64>) -> Obs {
@@ -594,19 +658,15 @@ impl RefWorld {
 }
 
 impl World for RefWorld {
-    fn name(&self) -> &'static str {
-        "os"
+    fn base(&mut self) -> &mut Base {
+        &mut self.base
     }
 
-    fn dir(&self) -> &Path {
-        &self.dir
-    }
-
-    fn reset(&mut self) {
+    fn reset(&mut self, mode: SnapMode) {
         self.file = None;
         self.rx = None;
         self.tx = None;
-        clear_dir(&self.dir);
+        self.base.reset(mode);
     }
 
     fn make_pipe(&mut self) -> Obs {
@@ -695,7 +755,7 @@ impl World for RefWorld {
     }
 
     fn state(&mut self) -> State {
-        snapshot(&self.dir, self.rx.as_ref().map(|f| f.as_raw_fd()), self.tx.is_some(), self.file.is_some())
+        snapshot(&self.base, self.rx.as_ref().map(|f| f.as_raw_fd()), self.tx.is_some(), self.file.is_some())
     }
 
     fn drain_pipe(&mut self) -> Vec<u8> {
@@ -716,7 +776,7 @@ struct Handles {
 
 pub struct CompioWorld {
     driver: DriverType,
-    dir: PathBuf,
+    base: Base,
     // field order: handles are dropped before the runtime
     h: Handles,
     rt: Option<Runtime>,
@@ -767,7 +827,7 @@ impl CompioWorld {
     pub fn new(driver: DriverType, dir: PathBuf) -> Self {
         Self {
             driver,
-            dir,
+            base: Base::new(dir),
             h: Handles::default(),
             rt: None,
             watchdog: Duration::from_secs(20),
@@ -786,7 +846,7 @@ impl CompioWorld {
     /// the runtime (and every handle attached to it)
     fn run(&mut self, job: Job) -> Obs {
         self.ensure_rt();
-        let dir = self.dir.clone();
+        let dir = self.base.dir.clone();
         let wd = self.watchdog;
         let rt = self.rt.as_ref().unwrap();
         let h = &mut self.h;
@@ -951,23 +1011,15 @@ async fn exec_compio(h: &mut Handles, dir: PathBuf, op: Op) -> Obs {
 }
 
 impl World for CompioWorld {
-    fn name(&self) -> &'static str {
-        match self.driver {
-            DriverType::IoUring => "iour",
-            DriverType::Poll => "poll",
-            _ => "other",
-        }
+    fn base(&mut self) -> &mut Base {
+        &mut self.base
     }
 
-    fn dir(&self) -> &Path {
-        &self.dir
-    }
-
-    fn reset(&mut self) {
+    fn reset(&mut self, mode: SnapMode) {
         // handles are dropped (not `close().await`ed): plain drop closes the descriptor because no
         // operation is in flight at this point
         self.h = Handles::default();
-        clear_dir(&self.dir);
+        self.base.reset(mode);
     }
 
     fn make_pipe(&mut self) -> Obs {
@@ -979,7 +1031,7 @@ impl World for CompioWorld {
     }
 
     fn state(&mut self) -> State {
-        snapshot(&self.dir, self.h.rx.as_ref().map(|f| f.as_raw_fd()), self.h.tx.is_some(), self.h.file.is_some())
+        snapshot(&self.base, self.h.rx.as_ref().map(|f| f.as_raw_fd()), self.h.tx.is_some(), self.h.file.is_some())
     }
 
     fn drain_pipe(&mut self) -> Vec<u8> {
